@@ -33,6 +33,9 @@ type KnownFinding struct {
 	Obligation string `json:"obligation"`
 	What       string `json:"what"`
 	Scenario   string `json:"scenario,omitempty"`
+	ReplayPkg  string `json:"replay_pkg,omitempty"`  // package directory of the replay test
+	ReplayFile string `json:"replay_file,omitempty"` // test file under /verif (injected with go test -overlay)
+	ReplayTest string `json:"replay_test,omitempty"` // test function: asserts the property, so FAIL = defect reproduced
 }
 
 type FixedFinding struct {
@@ -155,14 +158,23 @@ func runCheck(w *World, prop string, timeoutS int, confirm bool, known *KnownFil
 			}
 		}
 	}
-	Discharge(res.Obls, timeoutS, confirm, 16)
-	res.Sums = Summarize(res.Obls)
 	kn := map[string]KnownFinding{}
 	for _, k := range known.Findings {
 		if k.Property == prop {
 			kn[k.Obligation] = k
 		}
 	}
+	// obligations recorded as known findings are expected to fail: a short
+	// budget is enough to confirm that they are still not discharged
+	if timeoutS <= 20 {
+		for _, ob := range res.Obls {
+			if _, ok := kn[ob.Name]; ok {
+				ob.Timeout = 4
+			}
+		}
+	}
+	Discharge(res.Obls, timeoutS, confirm, 16)
+	res.Sums = Summarize(res.Obls)
 	for _, s := range res.Sums {
 		if len(s.Failed) == 0 {
 			continue
@@ -250,6 +262,21 @@ func cmdCheck(args []string) {
 		fmt.Println(line)
 		exit = 1
 	}
+	// thorough: confirm that every reported known finding still reproduces on the real code
+	var kfReplays []map[string]any
+	if *tier == "thorough" {
+		for _, s := range res.Known {
+			k := res.KnownInfo[s.Name]
+			if k.ReplayTest == "" {
+				continue
+			}
+			rep, out := runReplayTest(*repo, *verif, k.ReplayPkg, k.ReplayFile, k.ReplayTest)
+			kfReplays = append(kfReplays, map[string]any{"obligation": s.Name, "test": k.ReplayFile + ":" + k.ReplayTest, "reproduced_on_real_code": rep, "output_tail": tailStr(out, 600)})
+			if !rep {
+				fmt.Printf("NOTE: known finding %s did not reproduce in its replay test (the obligation still fails)\n", s.Name)
+			}
+		}
+	}
 	// thorough: must-fail corpus for this property
 	var mutRes []MutantResult
 	if *tier == "thorough" && exit == 0 {
@@ -263,7 +290,7 @@ func cmdCheck(args []string) {
 	}
 	wall := time.Since(t0).Seconds()
 	if !*noEvidence {
-		writeEvidence(*verif, prop, *tier, seed, res, mutRes, wall, len(violationLines))
+		writeEvidence(*verif, prop, *tier, seed, res, mutRes, wall, len(violationLines), kfReplays)
 	}
 	disc := 0
 	for _, s := range res.Sums {
@@ -320,15 +347,16 @@ func writeReplay(w *World, verif, prop string, s *OblSummary, path string) strin
 	suffix := ""
 	if ob.Result.Status == "sat" {
 		rf.Model = filterModel(ob.Result.Model)
-		rf.Replay = tryReplay(w, verif, prop, ob)
 	} else {
 		rf.SolverOut = out
 	}
+	// scenario replay on the real code, when a driver covers this obligation
+	rf.Replay = tryReplay(w, verif, prop, ob)
 	if rf.Replay == nil || !rf.Replay.Reproduced {
 		suffix = " no-failing-input-found"
 		rf.Note = "obligation not discharged; no concrete failing input was reproduced on the real code"
 	} else {
-		rf.Note = "counterexample replayed against the real code"
+		rf.Note = "the scenario guarded by this obligation was run against the real code and violates the property (see replay.observed)"
 	}
 	data, _ := json.MarshalIndent(rf, "", " ")
 	os.WriteFile(path, data, 0o644)
@@ -355,7 +383,14 @@ func filterModel(m string) string {
 	return s
 }
 
-func writeEvidence(verif, prop, tier string, seed int, res *CheckResult, muts []MutantResult, wall float64, nviol int) {
+func tailStr(s string, n int) string {
+	if len(s) > n {
+		return s[len(s)-n:]
+	}
+	return s
+}
+
+func writeEvidence(verif, prop, tier string, seed int, res *CheckResult, muts []MutantResult, wall float64, nviol int, kfReplays []map[string]any) {
 	type oblEv struct {
 		Name      string  `json:"name"`
 		Instances int     `json:"instances"`
@@ -448,7 +483,7 @@ func writeEvidence(verif, prop, tier string, seed int, res *CheckResult, muts []
 			"checker_cmd": "bin/hv check " + prop + " --tier " + tier,
 			"trusted_base": tb, "functions_under_contract": funcs, "obligation_list": obls, "samples": samples,
 			"solver_time_s": float64(int(solverTime*100)) / 100, "reach_checks": nreach, "lemmas": res.Lemmas,
-			"known_findings_reported": knownEv, "mutants": mutEv, "contract_files": res.ContractSrc,
+			"known_findings_reported": knownEv, "known_findings_replayed": kfReplays, "mutants": mutEv, "contract_files": res.ContractSrc,
 			"explanation": "Each obligation is a verification condition generated by symbolic execution of the go/ssa form of the real function against its //@ contract; an obligation name counts as discharged when every path instance is unsat. Known findings are obligations that fail on the pinned tree for a recorded genuine defect; they are not counted as discharged.",
 		},
 		"assumptions": sortedKeys(assumptions), "wall_s": float64(int(wall*10)) / 10, "violations": nviol,
